@@ -6,7 +6,7 @@ from tools.vlib.core import qlist
 
 KNOWN_HENDRIX = "hendrix-demand-truncation-loses-mass"
 TOL = 1e-4
-IMPORTS = "From Coq Require Import QArith List Bool.\nFrom MdpaxV Require Import Proofs.C13P Model.CorrSolve.\nImport ListNotations.\n"
+IMPORTS = "From Coq Require Import QArith Qabs List Bool.\nFrom MdpaxV Require Import Model.QFun Model.Hendrix Proofs.C13P Model.CorrSolve.\nImport ListNotations.\n"
 
 
 def check(p, t):
@@ -42,11 +42,51 @@ def check(p, t):
     return out
 
 
+def hendrix_items(P, t, max_states=4):
+    """Model/Hendrix.hx_prob (the function the mass theorems are about) evaluated in the kernel on this configuration's demand
+    tables (scipy Poisson / binomial values rounded to multiples of 2^-44), against EVERY event probability of a few states"""
+    from fractions import Fraction as F
+    from scipy.stats import binom, poisson
+    from tools.vlib.core import qlit
+    m = P["max_useful_life"]
+    D = m * (max(P["max_order_quantity_a"], P["max_order_quantity_b"]) + 2)
+    if D > 8:
+        return []
+    A, B = m * P["max_order_quantity_a"], m * P["max_order_quantity_b"]
+    rnd = lambda x: F(round(float(x) * 2 ** 44), 2 ** 44)  # noqa: E731
+    pa = [rnd(poisson.pmf(k, P["demand_poisson_mean_a"])) for k in range(D + 2)]
+    pb = [rnd(poisson.pmf(k, P["demand_poisson_mean_b"])) for k in range(D + 2)]
+    rho = P["substitution_probability"]
+    bn = [[rnd(binom.pmf(u, x, rho)) if u <= x else F(0) for u in range(D + 1)] for x in range(D + 1)]
+    ql = lambda l: "[" + "; ".join(qlit(x) for x in l) + "]"  # noqa: E731
+    pre = (f"Definition PA := {ql(pa)}.\nDefinition PB := {ql(pb)}.\nDefinition BN := [" + "; ".join(ql(r) for r in bn) + "].\n"
+           "Definition pa (k : nat) := qnth PA k.\nDefinition pb (k : nat) := qnth PB k.\nDefinition bn (u x : nat) := qnth (nth x BN []) u.\n")
+    S, E = t["states"].tolist(), t["events"].tolist()
+    seen, out = set(), []
+    for si, s in enumerate(S):
+        key = (sum(s[:m]), sum(s[m:]))
+        if key in seen:
+            continue
+        seen.add(key)
+        if len(seen) > max_states and key not in ((A, B), (0, 0)):
+            continue
+        terms = []
+        for ei, e in enumerate(E):
+            v = float(t["prob"][si, 0, ei])
+            if not np.isfinite(v):
+                terms.append("false")
+                continue
+            terms.append(f"Qle_bool (Qabs (hx_prob pa pb bn {D} {key[0]} {key[1]} {e[0]} {e[1]} - {qlit(F(v))})) (1 # 100000000)")
+        out.append(("", "(" + " && ".join(terms) + ")"))
+    return pre, out
+
+
 def run(ctx, build):
     probs = shipped.grid(ctx)
     tabs = shipped.tables(ctx, probs)
     corr, viols = [], []
     total = 0
+    n_hendrix_states = 0
     worst = {}
     for p, r, t in tabs:
         if t is None:
@@ -72,6 +112,20 @@ def run(ctx, build):
             corr.append({"what": "model evaluation failed", "detail": e})
         for i in failing:
             corr.append({"what": "censored_pmf model violates its own theorem on a rational table", "index": i})
+        # the Hendrix model against the implementation, one generated file per configuration (its own tables)
+        for j, (p, r, t) in enumerate(tabs):
+            if p["kind"] != "hendrix" or t is None:
+                continue
+            got = hendrix_items(PR.params_of("hendrix", p["params"]), t)
+            if not got:
+                continue
+            pre, hitems = got
+            n_hendrix_states += len(hitems)
+            failing, errs = cases.coq_bools(ctx, f"c13h{j}", [(pre if k == 0 else "", term) for k, (_, term) in enumerate(hitems)], imports=IMPORTS, shard=40)
+            for e in errs:
+                corr.append({"what": "Hendrix model evaluation failed", "detail": e, "input": {"problem": p}})
+            for i in failing:
+                corr.append({"what": "Model/Hendrix.hx_prob and random_event_probability disagree on some event of a state (1e-8)", "input": {"problem": p}})
     cov = {
         "evaluations": total, "distinct_nontrivial": len({core.case_hash(p) for p, r, t in tabs if t is not None}), "problems": len(tabs),
         "worst_row_sum_deviation": worst,
@@ -80,6 +134,7 @@ def run(ctx, build):
                 "row sums within 1e-4; evaluations = (state, action) rows checked",
         "samples": [{"problem": p["kind"], "params": {k: v for k, v in list(p["params"].items())[:5]}, "rows": int(r.get("nS", 0)) * int(r.get("nA", 0))} for p, r, t in tabs[:8]],
         "traces_validated_against_impl": len(tabs),
+        "hendrix_states_whose_every_event_probability_was_compared_with_the_model": n_hendrix_states,
     }
     return {"coverage": cov, "corr_failures": corr, "impl_violations": viols,
             "assumptions": ["gamma CDF, Poisson, negative binomial, softmax and multinomial values are floating-point outputs of numpyro / jax.scipy / scipy: oracle tables for the theorems"]}
